@@ -311,11 +311,11 @@ theorem acked_packet_is_strict (parseKV : Bytes → Option Bytes) (body tags : B
     simp only [hi, hloop, Out.ok.injEq, Prod.mk.injEq] at h
     simp only [wpDrainStrict, hi, hs, Option.map_some, h.1, h.2]
 
-/-- **Acknowledged ⇒ servable and faithful, with only F20a's class excluded**: for EVERY request body the server
-acknowledges over a readable partition — provided the records it produces fit `maxRecordSize` (the one open class, F20a) —
+/-- lemma form (the unsized model `serveWrite`, records assumed to fit): for EVERY request body the server
+acknowledges over a readable partition — provided the records it produces fit `maxRecordSize` —
 the partition afterwards reads back as the old events followed by the acknowledged ones (every chunk size, alignment, batch
 size), and the acknowledged events are exactly what the strict decoder yields for that body. -/
-theorem ackd_implies_servable (parseKV : Bytes → Option Bytes) (maxChunk maxRec : Nat) (j j' : Journal) (body : Bytes)
+theorem ackd_implies_servable_fitting (parseKV : Bytes → Option Bytes) (maxChunk maxRec : Nat) (j j' : Journal) (body : Bytes)
     (es old : List Event) (hm : 1 ≤ maxChunk) (hold : readEvents maxRec j = some old)
     (hack : serveWrite parseKV maxChunk j body = some (j', es))
     (hfit : ∀ e ∈ es, e.WF ∧ e.marshal.length ≤ maxRec) :
@@ -341,8 +341,8 @@ theorem ackd_implies_servable (parseKV : Bytes → Option Bytes) (maxChunk maxRe
 /-- the parser used by the counterexamples: `w=1`-style texts are irrelevant; only `""` parses -/
 def onlyEmpty (t : Bytes) : Option Bytes := if t = [] then some [] else none
 
-/-- **Counterexample, class (i) — open finding F20a** (of the code as long as the ingestor does not check record sizes:
-regenerated fact `ingestorChecksRecordSize = false`): a record longer than `maxRecordSize` (15 bytes against 12) is acknowledged
+/-- **Retired counterexample, class (i)** — a statement about the OTHER branch of the regenerated fact (the code before /repo
+e9a3bba, `ingestorChecksRecordSize = false`; vacuous on the current tree, see `repaired_ingestor_rejects_oversize`): a record longer than `maxRecordSize` (15 bytes against 12) is acknowledged
 and afterwards the partition — readable before — cannot be read at all. -/
 theorem cex_oversize_record_acknowledged : Generated.C01.ingestorChecksRecordSize = false →
     readEvents 12 [] = some [] ∧
@@ -350,9 +350,11 @@ theorem cex_oversize_record_acknowledged : Generated.C01.ingestorChecksRecordSiz
      | some (j', es) => decide (es = [⟨1, [1, 2, 3, 4, 5], []⟩] ∧ readEvents 12 j' = none)
      | none => false) = true := by decide
 
-/-- **With the proposed repair of F20a** (`proposed-fixes/F20a.diff`; fact `= true`) the same packet is rejected as a whole,
-and a record of exactly the limit is accepted -/
-theorem repaired_ingestor_rejects_oversize : Generated.C01.ingestorChecksRecordSize = true →
+/-- **Regression statement for former finding F20a** (/repo e9a3bba: the validation pass of `wpIterator.init` rejects a packet
+holding an event whose record would exceed the chunk reader's maximum record size): the witness packet is rejected as a whole —
+also when the oversize event is not the first one —, and a record of exactly the limit is accepted. Unconditional: reverting
+the repair flips the regenerated fact `ingestorChecksRecordSize` and breaks this theorem. -/
+theorem repaired_ingestor_rejects_oversize :
     serveWriteSized onlyEmpty 100 12 [] (wpEncode [] [] [⟨1, [1, 2, 3, 4, 5], [], []⟩]) = none ∧
     serveWriteSized onlyEmpty 100 12 [] (wpEncode [] [] [⟨7, [9], [], []⟩, ⟨1, [1, 2, 3, 4, 5], [], []⟩]) = none ∧
     (serveWriteSized onlyEmpty 100 12 [] (wpEncode [] [] [⟨1, [1, 2], [], []⟩])).isSome = true := by decide
@@ -382,7 +384,7 @@ theorem repaired_init_rejects :
     serveWrite onlyEmpty 100 [] (wpEncode [] [] [⟨1, [65], [], ofAscii "oops"⟩]) = none ∧
     serveWrite onlyEmpty 100 [] (wpEncode [] [] [⟨1, [65], [], []⟩, ⟨2, [66], [], ofAscii "oops"⟩]) = none := by decide
 
-/-- hence the full clause does not hold of the code as it is (F20a open) -/
+/-- retired with it: on the other branch the full clause fails (vacuous on the current tree; see `C01_full_holds`) -/
 theorem not_C01_full : Generated.C01.ingestorChecksRecordSize = false → ¬ C01_full := by
   intro hfact h
   obtain ⟨h2, h1⟩ := cex_oversize_record_acknowledged hfact
@@ -403,16 +405,18 @@ theorem init_size_eq_marshalled_size (parseKV : Bytes → Option Bytes) (wf : By
     (⟨e.ts, e.msg, wf ++ ef⟩ : Event).writableSize = (recOf (storedModel parseKV wf e)).data.length := by
   simp [recOf, storedModel, hp, wpFields_eq, writableSize_eq_marshal_length]
 
-/-- **Acknowledged ⇒ servable, without the F20a exclusion** — once the ingestor checks record sizes (fact `= true`) with the
-limit the readers use (`0 < maxRec`): for EVERY request body `ServerIngestor.write` acknowledges over a readable partition the
-partition reads back as old ++ acknowledged and the events are the strict decoder's. (`e.WF`: the decoded values are Go
-values — 64-bit timestamp, slices below 2⁶³ bytes.) -/
-theorem ackd_implies_servable_size_checked (hfact : Generated.C01.ingestorChecksRecordSize = true)
-    (parseKV : Bytes → Option Bytes) (maxChunk maxRec : Nat) (j j' : Journal) (body : Bytes)
+/-- **Acknowledged ⇒ servable and faithful — no class excluded** (after /repo c6bbc14 and e9a3bba): for EVERY request body
+`ServerIngestor.write` acknowledges over a readable partition, with the record-size limit the readers use (`0 < maxRec`), the
+partition afterwards reads back as the old events followed by the acknowledged ones — every chunk size, alignment, batch
+size — and the acknowledged events are exactly what the strict decoder yields for that body (complete packet, every field text
+parses, write-level fields before own fields). (`e.WF`: the decoded values are Go values — 64-bit timestamp, slices below 2⁶³
+bytes.) Scope: the RPC write path; in-process callers of `partition.Service.Write` (the pipe worker) are not covered. -/
+theorem ackd_implies_servable (parseKV : Bytes → Option Bytes) (maxChunk maxRec : Nat) (j j' : Journal) (body : Bytes)
     (es old : List Event) (hm : 1 ≤ maxChunk) (hr : 0 < maxRec) (hold : readEvents maxRec j = some old)
     (hack : serveWriteSized parseKV maxChunk maxRec j body = some (j', es))
     (hwf : ∀ e ∈ es, e.WF) :
     readEvents maxRec j' = some (old ++ es) ∧ ∃ tags, wpDrainStrict parseKV body = some (tags, es) := by
+  have hfact : Generated.C01.ingestorChecksRecordSize = true := by decide
   unfold serveWriteSized at hack
   split at hack
   · simp at hack
@@ -440,7 +444,16 @@ theorem ackd_implies_servable_size_checked (hfact : Generated.C01.ingestorChecks
         List.all_eq_true, decide_eq_true_eq] at hrej
       rw [← writableSize_eq_marshal_length]
       exact hrej e he
-    exact ackd_implies_servable parseKV maxChunk maxRec j j' body es old hm hold hack hfit
+    exact ackd_implies_servable_fitting parseKV maxChunk maxRec j j' body es old hm hold hack hfit
+
+/-- **The "rejected, not acknowledged" clause now holds of the RPC write path** — `C01_full` for Go values (`e.WF`) and a
+positive record-size limit; what remains open for C01 is the reader-side race F34 (library iterator), which this clause is not
+about. -/
+theorem C01_full_holds (parseKV : Bytes → Option Bytes) (maxChunk maxRec : Nat) (j j' : Journal) (body : Bytes)
+    (es old : List Event) (hm : 1 ≤ maxChunk) (hr : 0 < maxRec) (hold : readEvents maxRec j = some old)
+    (hack : serveWriteSized parseKV maxChunk maxRec j body = some (j', es)) (hwf : ∀ e ∈ es, e.WF) :
+    readEvents maxRec j' = some (old ++ es) ∧ ∃ tags, wpDrainStrict parseKV body = some (tags, es) :=
+  ackd_implies_servable parseKV maxChunk maxRec j j' body es old hm hr hold hack hwf
 
 /-- non-vacuity of `ackd_implies_servable_partial`: a two-event packet with write-level and own fields over a
 journal whose last chunk is full -/
